@@ -206,4 +206,4 @@ def run(ctx):
     ctx.exhaustive('all 1-, 2-, 3-digit hex colours + 16^3 grid of 6-digit colours × 5 alpha forms × shortHex on/off')
     ctx.run_parallel('shard_pairs')
     ctx.exhaustive('all ordered pairs of %d number shapes × signs × 2 keys (unit-taking, unit-less)' % len(SHAPES))
-    ctx.run_parallel('shard_random', extra=(ctx.pick(250, 15000),))
+    ctx.run_parallel('shard_random', extra=(ctx.pick(250, 6000),))
